@@ -129,9 +129,9 @@ def checkTDQuoteBody : Option TdQuoteBody → Outcome Unit
     lenIs t.mrConfigId abi_MrConfigIDSize "mrConfigId"
     lenIs t.mrOwner abi_MrOwnerSize "mrOwner"
     lenIs t.mrOwnerConfig abi_MrOwnerConfigSize "mrOwnerConfig"
+    lenIs t.reportData abi_ReportDataSize "reportData"
     guard' (t.rtmrs.length == abi_rtmrsCount) "rtmrs count"
     checkRtmrs t.rtmrs
-    -- (the Go code does not check ReportData here; see `checkTDQuoteBodyFull`)
 
 def checkPckChain : Option PckChainData → Outcome Unit
   | none => .err "pck chain nil"
